@@ -559,3 +559,69 @@ class ServerDisable:
         return not self._enabled and (stop_listener or not self._stop_server_thread)
 
     loops = {1: Loop(a=inv, modifies=["self._stop_server_thread", "self._server_thread.g_dead"])}
+
+
+# ===================================================================== failing the pending sends (D42)
+import queue as _queue  # noqa: E402
+
+from secsgem.common.block_send_info import BlockSendInfo  # noqa: E402
+from secsgem.hsms.protocol import HsmsProtocol  # noqa: E402
+from spec.ext import AbsQueue  # noqa: E402
+
+
+@contract("spec.ext:AbsQueue.get_nowait", "C09", name="GetNowaitAbs")
+class GetNowaitAbs:
+    """ASSUMED (queue.Queue, no producer at this point - the senders are the ones waiting): the next block, or queue.Empty
+    when none is left."""
+
+    abstract = True
+    modifies = {"self.g_pending": Int}
+    returns = Obj(BlockSendInfo, g_resolved=Const(False), g_counter=Same("self"))
+
+    def raises(self):
+        return {_queue.Empty: self.g_pending == 0}
+
+    def ensures(self, old):
+        return self.g_pending == old.self.g_pending - 1
+
+
+@contract("secsgem.common.block_send_info:BlockSendInfo.resolve", "C09", name="ResolveFailedAbs")
+class ResolveFailedAbs:
+    """Call-out contract: each block is resolved once, and here as failed - its sender is released with False."""
+
+    abstract = True
+    modifies = {"self.g_resolved": Bool, "self.g_counter.g_failed": Int}
+
+    def requires(self, result):
+        return {"resolved-once": not self.g_resolved, "as-failed": result == False}   # noqa: E712
+
+    def ensures(self, old):
+        return self.g_resolved and self.g_counter.g_failed == old.self.g_counter.g_failed + 1
+
+
+@contract("secsgem.common.protocol:Protocol._fail_send_queue", "C09")
+class FailSendQueue:
+    """Every block still waiting in the send queue is taken out and resolved as failed, exactly once each: no sender stays
+    in BlockSendInfo.wait() (which has no timeout) after the writer thread has gone."""
+
+    uses = [GetNowaitAbs, ResolveFailedAbs]
+    canary = "every-path"
+
+    def inputs():
+        return {"self": Obj(HsmsProtocol, _send_queue=Obj(AbsQueue, g_pending=Int(0, None), g_failed=Int(0, None)))}
+
+    def raises():
+        return {}
+
+    def ensures(self, old):
+        q = self._send_queue
+        return q.g_pending == 0 and q.g_failed == old.self._send_queue.g_failed + old.self._send_queue.g_pending
+
+    def inv(self, old):
+        q = self._send_queue
+        return q.g_pending >= 0 and q.g_failed + q.g_pending == old.self._send_queue.g_failed + old.self._send_queue.g_pending
+
+    def variant(self):
+        return self._send_queue.g_pending
+
+    loops = {1: Loop(a=inv, decreases=variant, modifies=["self._send_queue.g_pending", "self._send_queue.g_failed"])}
